@@ -240,6 +240,8 @@ proof fn lemma_rfc_type_roundtrip_rev(t: u16)
 }
 
 
+//@include inc/raw_header.rs
+
 // ---------------------------------------------------------------- message encoder (context.rs)
 //@item! stun_rs :: mod attributes > struct AttributeType
 impl Clone for AttributeType { fn clone(&self) -> (r: Self) ensures r == *self { *self } }
@@ -265,6 +267,7 @@ impl AttributeType {
 //@end
 }
 
+//@include prelude/err_levels.rs
 //@item! stun_rs :: mod context > struct EncoderContext
 impl Clone for EncoderContext {
 //@item! stun_rs :: mod context > impl ::core::clone::Clone for EncoderContext > fn clone
